@@ -42,6 +42,7 @@ Act ==
     [] E.op = "exit"       -> ExitBuffered
     [] E.op = "remove"     -> RemoveJob(H)
     [] E.op = "rekey"      -> RekeyJob(H)
+    [] E.op = "reinit"     -> RemoveReinit(H)
 
 TrInit == Init /\ tid \in 1..N /\ l = 1
 TrNext == l <= Len(Ev) /\ Act /\ l' = l + 1 /\ UNCHANGED <<tid, steps>>
